@@ -335,7 +335,25 @@ def one_document(ctx, lex, name, cls, seedstr):
             ctx.count("after_broken_document")
         case["broken_before"] = list(hostile_history.HISTORY[-40:])
     try:
-        t = OFXTree()
+        # every third document is read by ONE parser object that works through them all (a batch): what it converts is the document it
+        # has just parsed, not an earlier one
+        global _BATCH
+        if ctx.replay_case is None and ctx.evaluations % 3 == 0:
+            if _BATCH is None:
+                _BATCH = OFXTree()
+                _BATCH.parse(io.BytesIO((V2HDR + "<OFX><SIGNONMSGSRSV1><SONRS><STATUS><CODE>0</CODE><SEVERITY>INFO</SEVERITY></STATUS><DTSERVER>20200101</DTSERVER>"
+                                          "<LANGUAGE>ENG</LANGUAGE></SONRS></SIGNONMSGSRSV1></OFX>").encode("utf_8")))
+                _BATCH.convert()
+            t = _BATCH
+            case["reused_parser"] = True
+            ctx.count("documents_read_by_reused_parser")
+        elif ctx.replay_case is not None and ctx.replay_case["case"].get("reused_parser"):
+            t = OFXTree()
+            t.parse(io.BytesIO((V2HDR + "<OFX><SIGNONMSGSRSV1><SONRS><STATUS><CODE>0</CODE><SEVERITY>INFO</SEVERITY></STATUS><DTSERVER>20200101</DTSERVER>"
+                                "<LANGUAGE>ENG</LANGUAGE></SONRS></SIGNONMSGSRSV1></OFX>").encode("utf_8")))
+            t.convert()
+        else:
+            t = OFXTree()
         t.parse(io.BytesIO(data))
         model = t.convert()
     except Exception as e:
@@ -387,6 +405,9 @@ def run_shard(ctx):
     online.flush(ctx)
 
 
+_BATCH = None
+
+
 def charset_documents(ctx, only=None):
     """Character data of version-1 files in each declared character set, written by the harness byte for byte: the value in
     the model is the character the DECLARED set assigns to the byte (0x80-0x9F is where the single-byte sets differ)."""
@@ -397,16 +418,18 @@ def charset_documents(ctx, only=None):
              "NONE": ("utf_8", ["caf\u00e9 \u20ac5", "\u6c49\u5b57 \U0001f600", "\u2018q\u2019", "e\u0301"])}
     for cs, (codec, ws) in words.items():
         for wi, word in enumerate(ws):
-            if only is not None and only != [cs, wi]:
+            if only is not None and only[:2] != [cs, wi]:
                 continue
+            # the fields separated by CRLF, by bare CR, or by nothing at all (then the body shares a physical line with the header)
+            sep = ("\r\n", "\r", "", "\n")[(wi + len(cs)) % 4] if only is None or len(only) < 3 else only[2]
             hdr = ("OFXHEADER:100\r\nDATA:OFXSGML\r\nVERSION:102\r\nSECURITY:NONE\r\nENCODING:%s\r\nCHARSET:%s\r\nCOMPRESSION:NONE\r\nOLDFILEUID:NONE\r\nNEWFILEUID:NONE\r\n\r\n"
-                   % ("USASCII" if cs != "NONE" else "UNICODE", cs))
+                   % ("USASCII" if cs != "NONE" else "UNICODE", cs)).replace("\r\n\r\n", "\r\n").replace("\r\n", sep) + sep
             body = ("<OFX><SIGNONMSGSRSV1><SONRS><STATUS><CODE>0<SEVERITY>INFO<MESSAGE>%s</STATUS><DTSERVER>20200101120000<LANGUAGE>ENG<FI><ORG>%s</FI></SONRS></SIGNONMSGSRSV1></OFX>"
                     % (word, word[:6].strip()))
             data = hdr.encode("ascii") + body.encode(codec)
             ctx.ev()
             ctx.count("charset_documents")
-            case = {"charset_doc": [cs, wi]}
+            case = {"charset_doc": [cs, wi, sep]}
             try:
                 t = OFXTree()
                 t.parse(io.BytesIO(data))
